@@ -271,3 +271,31 @@ Theorem gen_MultiaddrsEqual_head_table : forall (T : Type) (a b : list T),
   else FFall [].
 Proof. exact GenTie_C20.MultiaddrsEqual_head_table. Qed.
 Print Assumptions gen_MultiaddrsEqual_head_table.
+
+(* ---- phase 2: further ties to the Gallina regenerated from the Go source (proofs/GenTie_C20.v) ---- *)
+From Coq Require Import ZArith NArith List Bool Lia String.
+From Lib Require Import Bytes Escape.
+From Model Require Import C20_Maurl C20_Mautil.
+From Proofs Require Import GenTie_Lib.
+From Gen Require Import Gen_Consts Gen_Funcs_prelude Gen_Funcs_maurl Gen_Funcs_mautil.
+Import ListNotations.
+Local Open Scope Z_scope.
+From Proofs Require Import GenTie_C20.
+
+Theorem gen_tie_CleanPeerAddrInfo : forall (nilv dflt : addr) (oof : frag (list addr)) (fuel : nat) (l : list addr),
+  (List.length l < fuel)%nat ->
+  mautil_CleanPeerAddrInfo_loop addr a_nil nilv dflt fuel oof l
+  = match clean_f fuel l with Ok t => FFall t | _ => oof end.
+Proof. exact GenTie_C20.tie_CleanPeerAddrInfo. Qed.
+Print Assumptions gen_tie_CleanPeerAddrInfo.
+
+Theorem gen_FromURL_tail_table : forall (C M U : Type) (join : M -> C -> M) (newc : list N -> list N -> C * option string) (qesc : list N -> list N) (pathOf schemeOf : U -> list N) (u : U) (nHTTPPATH nTCP : list N), (forall n v : list N, snd (newc n v) = None) -> forall (port : list N) (host : M), match maurl_FromURL_tail C M U join newc qesc pathOf schemeOf u nHTTPPATH nTCP port host with | FReturn ret (_, tr) => ret = "return joint, nil" /\ existsb (String.eqb "wport := multiaddr.Join(*addr, port)") tr = negb (is_nil port) /\ existsb (String.eqb "joint = multiaddr.Join(joint, httppath)") tr = negb (is_nil (pathOf u)) | _ => False end.
+Proof. exact GenTie_C20.FromURL_tail_table. Qed.
+Print Assumptions gen_FromURL_tail_table.
+
+Theorem gen_model_from_url_parts : forall esc (u : url),
+  port_comps u = match u_port u with None => Ok [] | Some p => q <- port_stb p ;; Ok [CTcp q] end /\
+  (C20_Maurl.is_nil (u_path u) = true -> forall h p, host_comp u = Ok h -> port_comps u = Ok p ->
+     from_url_with esc u = Ok (h :: p ++ [scheme_comp (u_scheme u)])%list).
+Proof. exact GenTie_C20.model_from_url_parts. Qed.
+Print Assumptions gen_model_from_url_parts.
